@@ -2,7 +2,7 @@
 
 A real directory tree with canary files outside every root (parent directory, prefix-sharing sibling,
 absolute path, a sibling of the PICO-8 carts root sharing its prefix); every path string of <= N atoms
-over {x, lib, ., .., /, sub/, ../, foobar/, ?, ;, <abs>, carts2/} x load-path settings x cart locations,
+over {x, lib, ., .., /, sub/, ../, foobar/, ?, ;, <abs>, carts2/, ~, ~/} x load-path settings x cart locations,
 driven through the public entries (`p8tool build --lua main.lua`, `file.from_file(cart.p8)`) with
 builtins.open / io.open wrapped in-process.  Every opened path inside the sandbox must lie under a
 permitted root, else the load must have failed before opening.
@@ -17,7 +17,7 @@ import tempfile
 from lib.core import ShardResult
 
 LEVEL = 'exploration'
-RULE = ('every concatenation of <= N atoms (quick 3, thorough 5) over 12 atoms as require() string x 5 load-path '
+RULE = ('every concatenation of <= N atoms (quick 3, thorough 5) over 14 atoms as require() string x 5 load-path '
         'settings (default, ?/init.lua, lib/?.lua, absolute dir, PICO8_LUA_PATH environment variable) and as #include '
         'path x 3 cart locations (plain directory, below the PICO-8 carts root, in a sibling "carts2" sharing the '
         'root\'s name prefix); non-trivial = the string contains "..", "/" at the start, an absolute path or a '
@@ -29,7 +29,7 @@ ASSUMPTIONS = ['only opens of paths inside the sandbox tree are judged (the inte
                'entry; for #include: the carts root if the cart is below it, else the cart\'s directory']
 BOUNDS = {'quick': {'atoms': 3}, 'thorough': {'atoms': 5}}
 
-ATOMS = ['x', 'lib', '.', '..', '/', 'sub/', '../', 'foobar/', '?', ';', '<abs>', 'carts2/']
+ATOMS = ['x', 'lib', '.', '..', '/', 'sub/', '../', 'foobar/', '?', ';', '<abs>', 'carts2/', '~', '~/']
 
 
 class Sandbox(object):
@@ -62,6 +62,10 @@ class Sandbox(object):
                 os.makedirs(os.path.dirname(p), exist_ok=True)
                 open(p, 'wb').write(body)
         open(os.path.join(self.home, '.lexaloffle', 'pico-8', 'x.lua'), 'wb').write(body)
+        for f in ('x.lua', 'lib.lua', 'x', 'init.lua'):
+            open(os.path.join(self.home, f), 'wb').write(body)
+        os.makedirs(os.path.join(self.home, 'lib'), exist_ok=True)
+        open(os.path.join(self.home, 'lib', 'x.lua'), 'wb').write(body)
         self.opened = []
 
     def close(self):
@@ -118,8 +122,10 @@ def location_class(sb, rp):
         return 'carts-root-prefix-sibling'
     if rel.startswith(os.path.join('home', '.lexaloffle', 'pico-8', 'carts') + os.sep):
         return 'other-cart-dir'
-    if rel.startswith('home'):
+    if rel.startswith(os.path.join('home', '.lexaloffle')):
         return 'above-carts-root'
+    if rel.startswith('home'):
+        return 'home-directory'
     if os.sep not in rel or rel.startswith('x' + os.sep) or rel.startswith('lib' + os.sep):
         return 'parent-directory'
     return 'elsewhere'
@@ -150,8 +156,10 @@ def check_require(sb, p, lp, res):
         os.environ['PICO8_LUA_PATH'] = sb.libs + '/?.lua;?;?.lua'
         allowed.append(sb.libs)
     case = {'kind': 'require', 'p': p.replace(sb.root, '<SB>'), 'loadpath': lp}
-    if any(t in p for t in ('..', 'foobar', sb.abs)) or p.startswith('/'):
+    if any(t in p for t in ('..', 'foobar', sb.abs, '~')) or p.startswith('/'):
         res.nontriv(('require', p, lp))
+    home_old = os.environ.get('HOME')
+    os.environ['HOME'] = sb.home
     try:
         with OpenTracer(sb) as tr:
             try:
@@ -164,6 +172,10 @@ def check_require(sb, p, lp, res):
         os.environ.pop('PICO8_LUA_PATH', None)
         if env_old is not None:
             os.environ['PICO8_LUA_PATH'] = env_old
+        if home_old is None:
+            os.environ.pop('HOME', None)
+        else:
+            os.environ['HOME'] = home_old
     for rp, mode in tr.log:
         if rp in (os.path.realpath(main), os.path.realpath(out)):
             continue
